@@ -239,6 +239,7 @@ func init() {
 	}, nil)
 	comboCheck("C14", "container-roster", func() Driver { return NewRosterDriver() }, 4, 6, 40, 200,
 		[]func() GridDriver{func() GridDriver { return NewSigGrid() }}, 40, 200, nil)
+	gridCheck("C18", []func() GridDriver{func() GridDriver { return NewValGrid() }}, 100, 500, nil)
 	bfsCheckT("C08", "netmap-history", func(tier string) func() Driver {
 		if tier == "thorough" {
 			return func() Driver { return NewSnapDriver([]int{0, 1, 2, 3, 4, 5, 6, 7, 8, 9, 10, 11, 12}, 30, 2) }
